@@ -119,6 +119,7 @@ fn fam(name: &'static str) -> Family {
         mixed_case: false,
         blind: false,
         flush_cycles: false,
+        reload_shape: false,
         tiny_wal: false,
         max_ops: 12,
     }
@@ -163,7 +164,7 @@ pub fn all() -> Vec<Box<dyn Suite>> {
                 (Family { cols: Cols::VaryWithin, odd_names: true, factors: &[999], tiny_wal: true, max_ops: 10, ..fam("vary-within-bgflush") }, 12),
                 (Family { cols: Cols::VaryAcross, odd_names: true, factors: &[1, 4], ..fam("vary-across") }, 16),
                 (Family { cols: Cols::VaryAcross, odd_names: true, factors: &[0], max_ops: 8, ..fam("vary-across-recompact") }, 4),
-                (Family { cols: Cols::VaryWithin, odd_tables: true, factors: &[4, 999], max_ops: 9, ..fam("odd-table-names") }, 4),
+                (Family { cols: Cols::VaryWithin, odd_tables: true, factors: &[999], max_ops: 9, ..fam("odd-table-names") }, 4),
                 (Family { cols: Cols::VaryWithin, null_first: true, factors: &[999], max_ops: 9, ..fam("null-first-columns") }, 6),
                 (Family { mixed_case: true, factors: &[1, 4, 999], max_ops: 8, ..fam("mixed-case-subpartitions") }, 6),
                 (Family { blind: true, factors: &[0, 1], ..fam("absent-columns-blind") }, 4),
@@ -181,6 +182,8 @@ pub fn all() -> Vec<Box<dyn Suite>> {
                 (Family { cols: Cols::VaryAcross, factors: &[1, 4, 999], ..fam("absent-columns") }, 10),
                 (Family { cols: Cols::VaryWithin, nulls: true, factors: &[999], ..fam("nulls-no-compaction") }, 8),
                 (Family { blind: true, factors: &[0, 1], ..fam("absent-columns-blind") }, 3),
+                (Family { mixed_case: true, factors: &[1, 4, 999], max_ops: 8, ..fam("mixed-case-subpartitions") }, 5),
+                (Family { odd_tables: true, reload_shape: true, factors: &[4, 999], max_ops: 8, ..fam("odd-table-names") }, 5),
                 (Family { cols: Cols::VaryWithin, nulls: true, factors: &[0, 1, 4], max_ops: 8, ..fam("nulls-compaction") }, 6),
                 (Family { strings: true, factors: &[1, 4, 999], restarts: false, ..fam("strings") }, 5),
                 (Family { factors: &[0, 1, 4], ..fam("wide-ints") }, 4),
